@@ -244,6 +244,10 @@ class MRunner:
                 osx = [Sym("lock"), W.path_sx(p)]
                 n.lock_()
             elif k == "unlock":
+                # a refused unlock formats its error message with repr(self) / repr(parent): below a lazy stack that repr
+                # runs memoised reads of its own (outside the model) — only unlocks that a lazy ancestor cannot refuse
+                if any(is_lazy(a) and getattr(a, "_is_locked", None) for q, a in nodes if len(q) < len(p) and p[:len(q)] == q):
+                    return None
                 osx = [Sym("unlock"), W.path_sx(p)]
                 n.unlock_()
             elif k == "read":
@@ -485,7 +489,7 @@ def _run_m(prog):
     def _alarm(*_a):
         raise _Timeout()
     old = signal.signal(signal.SIGALRM, _alarm)
-    signal.alarm(120)
+    signal.alarm(600)
     try:
         line, impl = MRunner(prog).run()
         return {"prog": prog, "line": line, "impl": impl}
@@ -538,7 +542,7 @@ def compare(prog, impl, model):
 
 def correspondence(R, procs):
     from .c06 import _pool_map
-    n, nops = (160, 24) if R.quick else (6000, 40)
+    n, nops = (160, 24) if R.quick else (2500, 36)
     progs = [gen_mprog(R.rng, nops) for _ in range(n)]
     res = _pool_map(_run_m, progs, procs)
     lines, keep = [], []
@@ -547,7 +551,7 @@ def correspondence(R, procs):
             raise RuntimeError("model-history runner crashed:\n" + r["crash"])
         if r.get("timeout") or r.get("lost"):
             R.mismatch("C06_Cache.step/read vs tensordict", {"spec": r["prog"]["spec"], "ops": r["prog"]["ops"], "stream": "model"},
-                       "history did not finish within 120 s", "terminates")
+                       "history did not finish within 600 s", "terminates")
             continue
         if r["impl"]:
             lines.append(r["line"])
